@@ -85,7 +85,7 @@ def draw_cfg(st, prop="C03"):
     n = st.choose(4, "n-extractors")
     for _ in range(n):
         cname = EXTRACTABLE[st.choose(len(EXTRACTABLE), "xcls")]
-        mode = "raise" if st.choose(4, "xmode") == 3 else "fields"
+        mode = ["fields", "fields", "flaky", "raise"][st.choose(4, "xmode")]
         if cname not in [c for c, _m in ex]:
             ex.append([cname, mode])
     if world == "threads" and st.choose(2, "hot-class"):
